@@ -59,6 +59,7 @@ type Opts struct {
 	Slices     bool
 	StructElem bool // []struct / [2]struct / map[string]struct
 	NamedColl  bool // NStrs, NMap
+	Twins      bool // sibling struct fields whose types differ only in skipped fields
 }
 
 // AllOpts enables everything C01 quantifies over.
@@ -191,7 +192,7 @@ func GenStruct(r *coqfmt.Rng, o Opts, depth int) reflect.Type {
 		}
 		fields = append(fields, sf)
 		// a sibling whose type differs only in skipped fields: both pointerify to the same type
-		if o.Skipped && sf.Tag == "" && !sf.Anonymous && sf.PkgPath == "" && r.Chance(1, 4) {
+		if o.Twins && o.Skipped && sf.Tag == "" && !sf.Anonymous && sf.PkgPath == "" && r.Chance(1, 4) {
 			switch {
 			case sf.Type.Kind() == reflect.Struct && sf.Type.Name() == "":
 				fields = append(fields, reflect.StructField{Name: name + "v", Type: SkippedVariant(r, sf.Type)})
